@@ -9,7 +9,7 @@ CONSTANTS
   VAlpha = {65}
   BigK = {1}
   BigFill = {255}
-  Modes = {"decode", "write"}
+  Modes = {"decode", "write", "plain"}
   MaxWrites = 2
   WriteOctets = {97, 65, 98}
 INVARIANT HopsOk
@@ -20,6 +20,7 @@ INVARIANT NoStuck
 INVARIANT WriteRoundTrip
 INVARIANT WriteTableSound
 INVARIANT WriteShortest
+INVARIANT EncodersBounded
 PROPERTY PointerBackwards
 PROPERTY DecTerminates
 CHECK_DEADLOCK FALSE
